@@ -5,9 +5,19 @@ built from the spec; afterwards every row of get_results() is replayed on a FRES
 spec: the recorded perturbation values are applied through Variable(..., apply_scaling=False).update (the raw
 quantity Perturbation.apply sets), the same compensation (CompensatorOptimizer with the same method / tol /
 variables / operands+targets) is run, the operands are evaluated through Operand.value and compared with the
-row.  The prescription (c01.snapshot through the public getters + media class names) is compared with the
-nominal one after run() and after reset().  Known defect mechanisms are modelled ("as-built") on a fresh lens
-and only a deviation that equals the model's prediction gets the mechanism key.
+row.  The prescription (c01.snapshot through the public getters + class names of media and geometries) is
+compared with the nominal one after run() and after reset().
+
+Known defect mechanisms are modelled ("as-built") on a fresh lens and only a deviation that equals the model's
+prediction gets the mechanism key (fewest mechanisms first; anything else is `<clause>:unexplained` or the bare clause):
+  montecarlo-no-final-reset            MonteCarlo.run leaves the lens in the state of its last trial
+                                       (model: nominal + last row's recorded perturbation and compensator values)
+  index-reset-loses-dispersion         Variable.reset of an index variable = set_index(n(wl_var)): a catalogue glass becomes
+                                       a constant-index IdealMaterial (model: set_index(nominal n at wl_var) on a fresh lens)
+  index-perturbation-drops-dispersion  the same replacement when an index perturbation is *applied*, even with the nominal
+                                       value (nominal-perturbation clause only; model: apply it through the public setter)
+  radius-reset-on-plane                Variable.reset of a radius variable on a plane = set_radius(inf): the Plane has become
+                                       a StandardGeometry(radius=inf), which traces NaN (model: set_radius(inf) on a fresh lens)
 """
 import itertools
 import math
@@ -22,7 +32,7 @@ ID = 'C15'
 RULE = ('random small lenses (2-6 optical interfaces at their paraxial focus, EPD aperture; ideal and catalogue media, '
         'conics, even aspheres, some with tilts/decentres and xy-polynomial / Chebyshev surfaces) x operand sets '
         '(1-4 of f2/F2/EPL/XPL, real-ray x/y intercepts, rms spot size mono/polychromatic, OPD difference, Seidel terms '
-        'and sums; default = nominal or explicit targets) x perturbation sets (1-4 of radius, conic, thickness, index, '
+        'and sums; targets = nominal values, sometimes 0 for spot size / OPD) x perturbation sets (1-4 of radius, conic, thickness, index, '
         'asphere_coeff, tilt, decenter, polynomial_coeff, chebyshev_coeff; Range samplers for SensitivityAnalysis, '
         'Scalar / Range / Distribution normal & uniform, seeded, for MonteCarlo) x compensation (none, or thickness of '
         'the last gap with the generic / least-squares optimiser) x 1-20 trials; families: normal, nominal (every sampled '
@@ -30,19 +40,19 @@ RULE = ('random small lenses (2-6 optical interfaces at their paraxial focus, EP
         'evaluations); non-trivial = (>= 2 perturbations or >= 5 rows) and an operand column that is not constant; '
         'distinct = distinct case hash')
 TIERS = {'quick': dict(shards=16, cases=2, budget_s=45), 'thorough': dict(shards=16, cases=150, budget_s=440)}
-MIN_NONTRIVIAL = {'quick': 15, 'thorough': 300}
+MIN_NONTRIVIAL = {'quick': 15, 'thorough': 250}
 MIN_EVALS = {
     'row-reproduced': {'quick': 150, 'thorough': 3000},
     'row-consistent-with-recorded-compensation': {'quick': 20, 'thorough': 500},
     'nominal-perturbation-reproduces-nominal': {'quick': 10, 'thorough': 150},
-    'seeded-run-reproducible': {'quick': 15, 'thorough': 400},
-    'lens-restored-after-run': {'quick': 25, 'thorough': 600},
-    'lens-restored-after-reset': {'quick': 25, 'thorough': 600},
-    'operands-restored-after-reset': {'quick': 25, 'thorough': 600},
-    'sampler-contract': {'quick': 100, 'thorough': 2500},
-    'table-layout': {'quick': 25, 'thorough': 600},
+    'seeded-run-reproducible': {'quick': 15, 'thorough': 300},
+    'lens-restored-after-run': {'quick': 25, 'thorough': 400},
+    'lens-restored-after-reset': {'quick': 25, 'thorough': 400},
+    'operands-restored-after-reset': {'quick': 25, 'thorough': 400},
+    'sampler-contract': {'quick': 100, 'thorough': 2000},
+    'table-layout': {'quick': 25, 'thorough': 400},
     'fault-run-completes': {'quick': 4, 'thorough': 60},
-    'fault-row-records-nan': {'quick': 2, 'thorough': 30},
+    'fault-row-records-nan': {'quick': 2, 'thorough': 20},
 }
 ASSUMPTIONS = [
     'the fresh lens is built from the JSON spec through the public add_surface API (vkit.lens.build), never by copying the live lens',
@@ -53,7 +63,14 @@ ASSUMPTIONS = [
     'tolerances: 1e-10*max(1,|v|) without compensators (same arithmetic on a lens whose vertices differ in the last bit), '
     '1e-6*max(1,|v|) with compensators; OPD operands get + 1e3*eps*(track length / wavelength) waves because an OPD is a '
     'difference of optical paths of that many waves; restore clauses 1e-12*max(1,|x|)',
-    'operand values of the nominal-perturbation clause are compared with the operands of a fresh nominal lens',
+    'a compensated row that does not reproduce within 1e-6 is probed: the fresh replay is repeated with the optimiser start moved by '
+    '+-2e-15 and 1.6e-14 (relative, a few ulp = the size of the legitimate last-bit differences between the live and the fresh lens); '
+    'if that alone moves an operand by more than 1e-7 the re-optimised comparison is undecidable at 1e-6, the row is counted as '
+    '`compensated-row-ill-conditioned-undecided` and decided only by row-consistent-with-recorded-compensation (1e-9, no optimiser)',
+    'row-consistent-with-recorded-compensation reads "the same compensation" as the recorded compensator values: recorded perturbation + '
+    'recorded compensator values applied to a fresh lens give the recorded operands (auxiliary tight form of row-reproduced)',
+    'the nominal-perturbation clause is a verdict for uncompensated runs only (with compensation the optimiser may legitimately stop a '
+    'finite-difference step away from the nominal state); its operands are compared with those of a fresh nominal lens',
     'NaN is injected with vkit.monitors.Failpoint on Paraxial.f2 (called once per evaluation of an f2 operand under an EPD aperture)',
 ]
 ANCHORS = [('optiland.tolerancing.core', 'Tolerancing.reset'), ('optiland.tolerancing.core', 'Tolerancing.evaluate'),
@@ -419,20 +436,26 @@ def media_types(lens):
 def snap_vec(lens, nom_types):
     """Prescription as one vector (+ scale vector): numbers through the public getters, then per surface one entry that is
     1 when the class of the medium behind it is the nominal class and one that is 1 when the geometry class is the nominal one."""
-    v, sc = [], []
-    for d in snapshot(lens):
+    v, sc, lab = [], [], []
+    for k, d in enumerate(snapshot(lens)):
         nums = [d['z'], d['x'], d['y'], d['rx'], d['ry'], d['radius'], 0.0 if d['conic'] is None else d['conic']]
         v += nums
         sc += [1.0] * len(nums)
+        lab += [f'S{k}.{n}' for n in ('z', 'dx', 'dy', 'rx', 'ry', 'radius', 'conic')]
         if d['coeffs'] is not None:
             c = [float(x) for x in np.ravel(np.asarray(d['coeffs'], dtype=float))]
             v += c
             sc += [0.0] * len(c)            # relative to the coefficient itself (filled in by the caller)
+            lab += [f'S{k}.coeff[{i}]' for i in range(len(c))]
         v += list(d['n_pre']) + list(d['n_post']) + [1.0 if d['stop'] else 0.0]
         sc += [1.0] * 7
+        lab += [f'S{k}.n_before({w})' for w in (0.48, 0.55, 0.65)] + [f'S{k}.n_behind({w})' for w in (0.48, 0.55, 0.65)] + [f'S{k}.stop']
     types = media_types(lens)
     v += [1.0 if x == y else 0.0 for x, y in zip(types, nom_types)]
     sc += [1.0] * len(types)
+    n = len(types) // 2
+    lab += [f'S{k}.medium-class-is-{nom_types[k]}' for k in range(n)] + [f'S{k}.{nom_types[n + k]}-class-kept' for k in range(n)]
+    snap_vec.labels = lab
     return np.array(v, dtype=float), np.array(sc, dtype=float)
 
 
@@ -664,7 +687,7 @@ def check_case(case, rec):
         for k in range(1, len(cands) + 1):
             for fl in itertools.combinations(sorted(cands), k):
                 idx = sorted(j for f in fl for j in cands[f])
-                out.append((fl, (lambda idx=idx: fn(idx))))
+                out.append((fl, (lambda idx=idx, **kw: fn(idx, **kw))))
         return out
 
     # ---- the library run ----------------------------------------------------------------------------
@@ -753,8 +776,6 @@ def check_case(case, rec):
 
     # ---- rows reproduced on a fresh lens ------------------------------------------------------------------
     tol_row = 1e-6 if nC else 1e-10
-    # SA rows of *other* perturbations see the media left behind by Perturbation.reset of an index perturbation
-    idx_flag = bool(dispersive_index)
     injected = set(case['fault']['at']) if mode == 'failpoint' else set()
     f2col = [i for i, o in enumerate(case['operands']) if o['type'] == 'f2']
     n_rep = 0
@@ -774,42 +795,33 @@ def check_case(case, rec):
                 return inject(Fresh(case, reset_idx=idx).perturb(rp).compensate(nudge).values(), mask)
             want = replay()
             models = reset_models(applied_r, replay)
+            undecided = False
             if nC:
                 # Is the comparison decidable?  The library's lens at the start of a trial differs from the fresh one in the
                 # last bit (vertex positions after set_thickness round trips, scaled compensator value); when the optimiser
                 # amplifies a few-ulp change of its start beyond a tenth of the tolerance, "the same compensation" is not a
-                # function of the recorded values at that tolerance and the row is decided by the recorded-compensation
-                # clause only.  Probed only when the row does not reproduce.
+                # function of the recorded values at that tolerance: the row is then decided by the recorded-compensation
+                # clause only and counted as undecided here.  Probed only when the row neither reproduces nor equals an
+                # as-built prediction.
                 sc_ = op_scale(case, want, got, tol_row)
-                r_, same_ = rec.resid(got, want, sc_)
-                if not (same_ and r_ <= tol_row):
-                    bases = [((), want)] + [(fl, alt()) for fl, alt in models]
-                    explained = any(rec.resid(got, b, sc_)[1] and rec.resid(got, b, sc_)[0] <= tol_row for _, b in bases[1:])
-                    if not explained:
-                        ill = False
-                        for fl, base in bases:
-                            idx = sorted(j for f_ in fl for j in ({M_INDEX: dispersive_index, M_PLANE: plane_radius}[f_])
-                                         if j not in applied_r)
-                            for nudge in (2e-15, -2e-15, 1.6e-14):
-                                rn, sn = rec.resid(replay(idx, nudge), base, sc_)
-                                if not sn or rn > 0.1 * tol_row:
-                                    ill = True
-                                    break
-                            if ill:
+
+                def agrees(v):
+                    r_, same_ = rec.resid(got, v, sc_)
+                    return bool(same_ and r_ <= tol_row)
+                bases = [(replay, want)] + [(alt, alt()) for _, alt in models]
+                if not any(agrees(v) for _, v in bases):
+                    for fn_, base in bases:
+                        for nudge in (2e-15, -2e-15, 1.6e-14):
+                            rn, sn = rec.resid(fn_(nudge=nudge), base, sc_)
+                            if not sn or rn > 0.1 * tol_row:
+                                undecided = True
                                 break
-                        if ill:
-                            rec.cls('compensated-row-ill-conditioned-undecided')
-                            rec.event('rows_ill_conditioned')
-                            continue_row = True
-                        else:
-                            continue_row = False
-                    else:
-                        continue_row = False
-                else:
-                    continue_row = False
+                        if undecided:
+                            break
+            if undecided:
+                rec.cls('compensated-row-ill-conditioned-undecided')
+                rec.event('rows_ill_conditioned')
             else:
-                continue_row = False
-            if not continue_row:
                 close_mech(rec, 'row-reproduced', got, want, tol_row, op_scale(case, want, got, tol_row), models,
                            msg=f'{family} row {r}: recorded operands {got.tolist()} but a fresh nominal lens with the recorded '
                                f'perturbation values {rp} ({[pnames[j] for j, _ in rp]})' + (' + compensation' if nC else '')
@@ -839,7 +851,13 @@ def check_case(case, rec):
     rec.event('rows_reproduced', n_rep)
 
     # ---- nominal perturbation -------------------------------------------------------------------------------
-    if mode == 'nominal':
+    if mode == 'nominal' and nC:
+        # with compensation the operands return to nominal only as far as the optimiser's own stopping rule demands (it starts
+        # at merit 0 and may stop a finite-difference step away): evidence, not a verdict -- these rows are decided by
+        # row-reproduced / row-consistent-with-recorded-compensation
+        dev = float(np.nanmax(np.abs(op_tab - nom_vals) / op_scale(case, nom_vals, op_tab[0], 1e-6))) if n_rows else 0.0
+        rec.cls('nominal-compensated-within-1e-6' if dev <= 1e-6 else 'nominal-compensated-beyond-1e-6')
+    if mode == 'nominal' and not nC:
         for r in range(n_rows):
             rp = row_perts(r)
             applied = [j for j in dispersive_index if j in [q for q, _ in rp]]
@@ -851,11 +869,11 @@ def check_case(case, rec):
                 # medium constant-index; `index-reset-loses-dispersion`: so does the reset of one that is not applied in this row
                 f = Fresh(case, reset_idx=(only_reset if M_INDEX in flags else ()))
                 f.perturb([(j, v) for j, v in rp if (M_SET in flags or j not in applied)])
-                return f.compensate().values()
+                return f.values()
             models = [(fl, (lambda fl=fl: nominal_model(fl))) for k in range(1, len(cands) + 1)
                       for fl in itertools.combinations(cands, k)]
-            t = 1e-6 if nC else 1e-12
-            close_mech(rec, 'nominal-perturbation-reproduces-nominal' + ('-compensated' if nC else ''), op_tab[r], nom_vals, t,
+            t = 1e-12
+            close_mech(rec, 'nominal-perturbation-reproduces-nominal', op_tab[r], nom_vals, t,
                        op_scale(case, nom_vals, op_tab[r], t), models,
                        msg=f'{family} row {r}: every sampled value equals the nominal value {row_perts(r)} but the operands are '
                            f'{op_tab[r].tolist()}, nominal {nom_vals.tolist()}')
@@ -934,4 +952,5 @@ def _diff_text(got, want, sc):
     d = np.where(np.isnan(d), np.where(np.isnan(got) & np.isnan(want), 0.0, np.inf), d)
     d = np.where((got == want), 0.0, d)
     idx = np.argsort(-d)[:4]
-    return '; '.join(f'entry {int(i)}: {got[i]!r} vs nominal {want[i]!r}' for i in idx if d[i] > 1e-12)
+    lab = getattr(snap_vec, 'labels', [])
+    return '; '.join(f'{lab[i] if i < len(lab) else int(i)}: {float(got[i])!r} vs nominal {float(want[i])!r}' for i in idx if d[i] > 1e-12)
